@@ -40,6 +40,7 @@ type Query {
   tagged(filter: Filter): String
   label: Tag
   labelRef: TagRef
+  labelAlso: Tag
   vari(xs: [String]): String
   triple: String
 }
@@ -149,21 +150,22 @@ type FaultPlan struct {
 
 // Fault kinds for resolver invocations.
 const (
-	FaultError      = "error"                        // plain error
-	FaultGGQLError  = "ggql_error"                   // *ggql.Error with extensions
-	FaultErrorGroup = "error_group"                  // ggql.Errors with two members
-	FaultNthError   = "nth_error"                    // AnyResolver.Nth error
-	FaultBadLeaf    = "bad_leaf"                     // un-coercible leaf value
-	FaultGroupExt   = "error_group_with_extensions"  // ggql.Errors whose members are *ggql.Error with extensions
-	FaultNestedGrp  = "nested_error_group"           // ggql.Errors{e, ggql.Errors{e, e}}: three entries
-	FaultShared     = "shared_ggql_error"            // every failing site of the plan returns the SAME *ggql.Error value (an application sentinel)
-	FaultTwinGroup  = "error_group_with_equal_texts" // ggql.Errors of three members, two of them with the same text and different extensions
-	FaultWrapGroup  = "wrapped_error_group"          // fmt.Errorf("ctx: %w", group)-style wrapper around a ggql.Errors of two members
-	FaultWrapGGQL   = "wrapped_ggql_error"           // wrapper around a *ggql.Error with extensions
-	FaultOwnPath    = "ggql_error_with_own_path"     // a *ggql.Error handed on from elsewhere: wraps ErrResolve, has a Path, Line and Column of its own
-	FaultTypedNil   = "typed_nil_with_error"        // the resolver returns its declared nil map / nil pointer together with the error
-	FaultPanic      = "panic"                        // the resolver panics (the caller of ggql recovers): histories only
-	FaultBadList    = "bad_list_elements"            // a [scalar] field returns []interface{}{ok, bad, ok, bad}: two coercion failures in one list
+	FaultError      = "error"                          // plain error
+	FaultGGQLError  = "ggql_error"                     // *ggql.Error with extensions
+	FaultErrorGroup = "error_group"                    // ggql.Errors with two members
+	FaultNthError   = "nth_error"                      // AnyResolver.Nth error
+	FaultBadLeaf    = "bad_leaf"                       // un-coercible leaf value
+	FaultGroupExt   = "error_group_with_extensions"    // ggql.Errors whose members are *ggql.Error with extensions
+	FaultNestedGrp  = "nested_error_group"             // ggql.Errors{e, ggql.Errors{e, e}}: three entries
+	FaultShared     = "shared_ggql_error"              // every failing site of the plan returns the SAME *ggql.Error value (an application sentinel)
+	FaultTwinGroup  = "error_group_with_equal_texts"   // ggql.Errors of three members, two of them with the same text and different extensions
+	FaultWrapGroup  = "wrapped_error_group"            // fmt.Errorf("ctx: %w", group)-style wrapper around a ggql.Errors of two members
+	FaultWrapGGQL   = "wrapped_ggql_error"             // wrapper around a *ggql.Error with extensions
+	FaultOwnPath    = "ggql_error_with_own_path"       // a *ggql.Error handed on from elsewhere: wraps ErrResolve, has a Path, Line and Column of its own
+	FaultTypedNil   = "typed_nil_with_error"           // the resolver returns its declared nil map / nil pointer together with the error
+	FaultOverGroup  = "ggql_error_over_upstream_group" // ONE *ggql.Error with extensions whose Base chain holds a ggql.Errors (a gateway keeping the upstream list): one entry
+	FaultPanic      = "panic"                          // the resolver panics (the caller of ggql recovers): histories only
+	FaultBadList    = "bad_list_elements"              // a [scalar] field returns []interface{}{ok, bad, ok, bad}: two coercion failures in one list
 )
 
 // IsScalarListField tells whether a zoo field is a list of bare scalars.
@@ -316,6 +318,9 @@ func (tr *Tracker) enter(typ, field string, args map[string]interface{}, path st
 		return kind, &wrapErr{msg: "while resolving " + field, err: ggql.Errors{errors.New("injected member 1 " + tag), errors.New("injected member 2 " + tag)}}
 	case FaultWrapGGQL:
 		return kind, &wrapErr{msg: "while resolving " + field + " " + tag, err: &ggql.Error{Base: errors.New("injected ggql failure " + tag), Extensions: map[string]interface{}{"code": "E" + strconv.Itoa(tr.N)}}}
+	case FaultOverGroup:
+		return kind, &ggql.Error{Base: &wrapErr{msg: "gateway " + tag, err: ggql.Errors{errors.New("upstream said a"), errors.New("upstream said b")}},
+			Extensions: map[string]interface{}{"code": "E" + strconv.Itoa(tr.N)}}
 	case FaultBadList:
 		f.Members = 2
 	}
@@ -347,6 +352,11 @@ type Query struct {
 	// pointer receiver (not in the method set of the value).
 	Label    Label
 	LabelRef *Label
+	// LabelAlso reaches the library as a pointer under the type Tag, which
+	// Label serves by value: one GraphQL type in two Go shapes (only the
+	// crash-freedom check asks for it; which shape binds first decides the
+	// answer for the other).
+	LabelAlso *Label
 	// Chief is served by a second Go struct for the GraphQL type Keeper (other
 	// field order); only plain struct fields are ever selected beneath it.
 	Chief *KeeperAlt
@@ -691,6 +701,7 @@ func GenZoo(t *tape.Tape) *Query {
 	q.Boss = q.Keepers[0]
 	q.Label = Label{T: "t" + q.Title, A: "a" + q.Title}
 	q.LabelRef = &Label{T: "rt" + q.Title, A: "ra" + q.Title}
+	q.LabelAlso = &Label{T: "at" + q.Title, A: "aa" + q.Title}
 	q.Chief = &KeeperAlt{Rank: q.Boss.Rank, Age: q.Boss.Age + 1, Note: "alt", Name: "chief-" + q.Boss.Name}
 	for _, k := range q.Keepers {
 		if k == nil {
@@ -842,6 +853,8 @@ func zooField(q *Query, obj interface{}, name string, args map[string]interface{
 			return &l, nil
 		case "labelRef":
 			return o.LabelRef, nil
+		case "labelAlso":
+			return o.LabelAlso, nil
 		case "relay":
 			return relay(o, toInt64(args["n"])), nil
 		case "pick":
